@@ -244,8 +244,9 @@ struct Aroon {
 	hi: RSel,
 	lo: RSel,
 	cross: RCross,
-	up: i64,
-	down: i64,
+	/// consecutive-bar counters; None = unknown (a zone comparison fell inside the rounding allowance)
+	up: Option<i64>,
+	down: Option<i64>,
 }
 impl RefInd for Aroon {
 	fn next(&mut self, c: &TC) -> (Vec<T>, Vec<Sig>) {
@@ -253,18 +254,34 @@ impl RefInd for Aroon {
 		self.lo.push(c[2].v);
 		let (hi, li) = (self.hi.argmax_age() as f64, self.lo.argmin_age() as f64);
 		let p = self.period as f64;
-		let up = T::new((p - hi) / p, U);
-		let dn = T::new((p - li) / p, U);
-		let s0 = self.cross.cross(T::exact(up.v), T::exact(dn.v));
-		let s1 = i8sig(Some(i8::from(hi == 0.0) - i8::from(li == 0.0)));
-		let up_over = up.v >= 1.0 - self.zone;
-		let up_under = up.v <= self.zone;
-		let dn_over = dn.v >= 1.0 - self.zone;
-		let dn_under = dn.v <= self.zone;
-		self.up = (self.up + 1) * i64::from(up_over) * i64::from(dn_under);
-		self.down = (self.down + 1) * i64::from(dn_over) * i64::from(up_under);
-		let tv = (self.up - self.down) as f64 / self.ozp as f64;
-		(vec![up, dn], vec![s0, s1, action_from(T::new(tv, 2.0 * U * tv.abs()))])
+		// (period - index) / period: one division; another evaluation (1 - index / period) may differ by an ulp, so
+		// comparisons of the two lines with each other and with the zones are three-valued
+		let up = T::new((p - hi) / p, 2.0 * U);
+		let dn = T::new((p - li) / p, 2.0 * U);
+		let s0 = self.cross.cross(up, dn);
+		let s1 = match Some(i8::from(hi == 0.0) - i8::from(li == 0.0)) {
+			Some(x) if x > 0 => Sig::A(Action::BUY_ALL),
+			Some(x) if x < 0 => Sig::A(Action::SELL_ALL),
+			_ => Sig::A(Action::None),
+		};
+		let (zl, zh) = (T::exact(self.zone), T::exact(1.0 - self.zone));
+		let step = |cnt: Option<i64>, cond: Tri| -> Option<i64> {
+			match cond {
+				Tri::False => Some(0),
+				Tri::True => cnt.map(|c| c + 1),
+				Tri::Unknown => None,
+			}
+		};
+		self.up = step(self.up, up.ge(zh).and(dn.le(zl)));
+		self.down = step(self.down, dn.ge(zh).and(up.le(zl)));
+		let s2 = match (self.up, self.down) {
+			(Some(u), Some(d)) => {
+				let tv = (u - d) as f64 / self.ozp as f64;
+				action_from(T::new(tv, 2.0 * U * tv.abs()))
+			}
+			_ => Sig::Unknown,
+		};
+		(vec![up, dn], vec![s0, s1, s2])
 	}
 }
 
@@ -611,8 +628,8 @@ pub fn make_refind(name: &str, cfg: &Value, first: &TC) -> Option<Box<dyn RefInd
 				hi: RSel::new(p, c0[1].v),
 				lo: RSel::new(p, c0[2].v),
 				cross: RCross::default0(),
-				up: 0,
-				down: 0,
+				up: Some(0),
+				down: Some(0),
 			})
 		}
 		"AverageDirectionalIndex" => {
